@@ -5,6 +5,9 @@
 pub assume_specification[ char::is_ascii_alphanumeric ](c: &char) -> (r: bool)
     ensures r == (('0' <= *c && *c <= '9') || ('a' <= *c && *c <= 'z') || ('A' <= *c && *c <= 'Z'));
 
+pub assume_specification[ u8::is_ascii_graphic ](c: &u8) -> (r: bool)
+    ensures r == (0x21u8 <= *c && *c <= 0x7Eu8);
+
 // Payload types the extracted functions never look into: opaque, nothing is assumed about them.
 #[verifier::external_body] pub struct Token { _p: () }
 #[verifier::external_body] pub struct FunctionCall { _p: () }
@@ -50,6 +53,9 @@ pub open spec fn left_needed(p: BinaryOperator, c: BinaryOperator) -> bool {
 pub open spec fn right_needed(p: BinaryOperator, c: BinaryOperator) -> bool {
     lvl(c) < lvl(p) || (lvl(c) == lvl(p) && !rassoc(p))
 }
+
+// ---------------------------------------------------------------- O-esc
+pub open spec fn must_escape_in_quotes(c: u8) -> bool { c == 0x5Cu8 || c == 0x0Au8 || c == 0x0Du8 || c >= 0x80u8 }
 
 // ---------------------------------------------------------------- O-lex
 pub open spec fn word(c: char) -> bool {
